@@ -13,9 +13,10 @@ What is abstract: the namespace tree is a flat list of entries in `get_all_types
 C11's model), the class hierarchy behind `type_to_template` is a per-entry candidate list (C16's model), the
 content of files is not modelled at all — only *which* files are read, listed, created.
 
-The model describes the code **after** the proposed fix `fix_list_outputs_omit` (the listing path hands
-`--omit-serialization-support` to the generators exactly like the generating path).  The behaviour of the
-unchanged code is kept as `listOutputsOnlyBeforeFix` / `runBeforeFix`.
+The model describes the code **after** the two proposed fixes: `fix_list_outputs_omit` (the listing path hands
+`--omit-serialization-support` to the generators exactly like the generating path) and
+`fix_list_inputs_support_templates` (`SupportGenerator.get_templates` reports the file its loader opens).  The
+behaviour of the unchanged code is kept as `listOutputsOnlyBeforeFix` / `listInputsOnlyBeforeFix` / `runBeforeFix`.
 
 Core Lean only.
 -/
@@ -310,12 +311,32 @@ def listOutputsOnlyBeforeFix (a : Args) (tree : List (Entry × OutPath)) : Run :
 
 def supportPath (a : Args) (name : String) : String := (builtinTemplateFile a "support" name).path
 
-/-- `_list_inputs_only` -/
-def listInputsOnly (a : Args) (tree : List (Entry × OutPath)) : Run :=
+/-- The file the support generator really reads for a packaged resource: a template goes through the loader,
+whose `get_source` asks the `--support-templates` directory first (by exact name); anything else is copied from
+the package. -/
+def supportTemplateRead (a : Args) (name : String) : String :=
+  if pySuffix name == ".j2" then
+    match a.supportTemplates with
+    | none => supportPath a name
+    | some fs =>
+      match fs.find? (fun f => f.name == name) with
+      | some f => f.path
+      | none => supportPath a name
+  else supportPath a name
+
+/-- `_list_inputs_only`, generic in what `SupportGenerator.get_templates` reports for a resource. -/
+def listInputsWith (supportSource : Args → String → String) (a : Args) (tree : List (Entry × OutPath)) : Run :=
   { inputs :=
       (if a.genSupport != .only then (typeTemplates a).map (·.path) else []) ++
-      (if shouldGenerateSupport a then (supportResources a a.omitSer).map (supportPath a) else []) ++
+      (if shouldGenerateSupport a then (supportResources a a.omitSer).map (supportSource a) else []) ++
       (if a.genSupport != .only then (selected a tree).map (·.1.src) else []) }
+
+/-- `_list_inputs_only` (after `fix_list_inputs_support_templates`: the support generator reports the file its
+loader opens) -/
+def listInputsOnly : Args → List (Entry × OutPath) → Run := listInputsWith supportTemplateRead
+
+/-- `_list_inputs_only` of the unchanged code: always the packaged resource. -/
+def listInputsOnlyBeforeFix : Args → List (Entry × OutPath) → Run := listInputsWith supportPath
 
 /-- `_generate`: support first, then the types. -/
 def generate (a : Args) (dry : Bool) (tree : List (Entry × OutPath)) : Run :=
@@ -327,19 +348,19 @@ def generate (a : Args) (dry : Bool) (tree : List (Entry × OutPath)) : Run :=
     { ops := s.ops ++ t.ops, err := errOf t.res }
 
 /-- `main` + `ArgparseRunner.__init__` + `run`, generic in the listing method. -/
-def runWith (lo : Args → List (Entry × OutPath) → Run) (m : Mode) (a : Args) (entries : List Entry) : Run :=
+def runWith (lo li : Args → List (Entry × OutPath) → Run) (m : Mode) (a : Args) (entries : List Entry) : Run :=
   if !accepted a then { err := some .parserReject } else
   match buildTree a (treeEntries a entries) with
   | .error x => { err := some x }
   | .ok tree =>
     match m with
     | .listOutputs => lo a tree
-    | .listInputs => listInputsOnly a tree
+    | .listInputs => li a tree
     | .dryRun => generate a true tree
     | .generate => generate a false tree
 
-def run : Mode → Args → List Entry → Run := runWith listOutputsOnly
-def runBeforeFix : Mode → Args → List Entry → Run := runWith listOutputsOnlyBeforeFix
+def run : Mode → Args → List Entry → Run := runWith listOutputsOnly listInputsOnly
+def runBeforeFix : Mode → Args → List Entry → Run := runWith listOutputsOnlyBeforeFix listInputsOnlyBeforeFix
 
 /-- The files a real run creates. -/
 def generated (a : Args) (entries : List Entry) : List OutPath := written (run .generate a entries).ops
@@ -351,16 +372,6 @@ def includedFiles (a : Args) : List TemplateFile :=
   match a.templates with
   | some _ => []          -- a custom directory: what it includes is not known to the model
   | none => a.lang.included.map (builtinTemplateFile a "templates")
-
-/-- The support template the support generator's loader really opens for a resource: `get_source` asks the
-`--support-templates` directory first. -/
-def supportTemplateRead (a : Args) (name : String) : String :=
-  match a.supportTemplates with
-  | none => supportPath a name
-  | some fs =>
-    match fs.find? (fun f => f.name == name) with
-    | some f => f.path
-    | none => supportPath a name
 
 /-- Every file whose content a real run turns into output (as far as the model knows it): the templates of the
 active loader and what they include, the DSDL definitions of the generated types and everything the front end
